@@ -439,7 +439,7 @@ func main() {
 		"oracle_clauses_exercised":       counters,
 		"explanation":                    "every grammar-I schema set of the listed families is built twice (fresh values), once for cog's own (&ast.BuilderGenerator{}).FromAST — the call `inspect --ir builders` makes before veneers — and once for an independent derivation transcribed from DESIGN Appendix A.2; compared: the set of builders (Package, Name, For), and per field of the resolved struct exactly-once coverage by an option (name, single argument name/type, default, one direct assignment to [field] with argument value and each scalar constraint op+first argument) or a constructor constant (path, value) or nothing (constant reference); schema sets with an alias cycle run in a child process so that a stack overflow is recorded as a crash: finding instead of killing the run",
 	}, []string{
-		"leniences (statement silent): order of builders and of options; comments, veneer trails, nil checks, builder Properties/Factories; an optional or nullable reference to a constant (or a reference to a nullable constant) may be covered by an option or by a constructor constant; constraints on assignments of non-scalar fields are not judged; a constant reference may also be covered by a constructor constant equal to its reference value",
+		"leniences (statement silent): order of builders and of options; comments, veneer trails, nil checks, builder Properties/Factories; a required non-nullable reference to a constant object that is itself nullable may be covered by an option or by a constructor constant (an optional or nullable reference to a constant is NOT fixed by the schema and must be an option); constraints on assignments of non-scalar fields are not judged; a constant reference may also be covered by a constructor constant equal to its reference value",
 		"constraint operators exercised are those of grammar I (minLength, maxLength, >=, <); all other operators go through the same code path",
 		"references always use the exact case of the object name; two schemas never share a package name (Schemas are consolidated before builders are derived)",
 		"a crash (panic / fatal error) of FromAST is reported under kind `crash:` for visibility; it is property C04's subject but also violates A.2 (unresolved or cyclic reference: no builder, never a crash)",
